@@ -6,7 +6,7 @@ name = sys.argv[1]
 d = os.path.join("/verif/seeded", name)
 meta = json.load(open(os.path.join(d, "meta.json")))
 props = sys.argv[2:] or [meta["property"]]
-W = "/tmp/mutv/alt-" + name
+W = "/tmp/mutv/alt-" + os.path.basename(os.environ.get("ALT_WORK", "w")) + "-" + name
 subprocess.run("git -C /repo worktree remove --force %s" % W, shell=True, capture_output=True)
 r = subprocess.run("git -C /repo worktree add --detach %s HEAD" % W, shell=True, capture_output=True, text=True)
 assert r.returncode == 0, r.stderr
@@ -14,7 +14,7 @@ try:
     r = subprocess.run("git -C %s apply %s" % (W, os.path.join(d, "patch.diff")), shell=True, capture_output=True, text=True)
     assert r.returncode == 0, "patch no longer applies: " + r.stderr
     env = {k: v for k, v in os.environ.items() if k not in ("CARGO_TARGET_DIR", "RUSTFLAGS")}
-    env.update(VERIF_REPO=W, VERIF_WORK="/tmp/work-altm", VERIF_EVIDENCE="/tmp/ev-altm")
+    env.update(VERIF_REPO=W, VERIF_WORK=os.environ.get("ALT_WORK", "/tmp/work-altm"), VERIF_EVIDENCE="/tmp/ev-altm")
     for c in props:
         t = time.time()
         p = subprocess.run("./check %s quick" % c, shell=True, cwd="/verif", env=env, stdout=subprocess.PIPE, stderr=subprocess.STDOUT, text=True)
